@@ -302,8 +302,10 @@ def cm_timeout_exit(ex, v, sig):
                 can_fire = tval.term != NONE
             if ex.choice([None, can_fire], 'deadline_fired?') == 1:
                 ex.st.trace.append('deadline->TimeoutError')
+                ex.st.flags['cancelled'] = False   # it was the deadline's internal cancellation, not the caller's
                 new = ex.fresh_exc('TimeoutError', base='deadline', exact=True)
-                ex.st.ghost_deadline = True
+                if 'last_exc' in ex.spec.ghosts:
+                    ex.ghost_set('last_exc', new)
                 return RaiseSig(new, 'asyncio.timeout')
     return sig
 
@@ -345,6 +347,43 @@ def sem_new(ex, n, awaited, recv=None):
     lim = coerce(ex.eval(n.args[0]), INT) if n.args else mk_int(1)
     ex.write_field(v.term, 'sem$value', lim)
     return v
+
+
+def user_call(name, pre=None, post=None, on_raise=None, result_ty='any', raises=('Exception',), is_async=True):
+    """Model of a call into user code (handler, wrapped function, predicate): an arbitrary client of the public API.
+    It is a suspension point (when async), returns anything of result_ty or raises any of `raises`; ghost effects are
+    applied by pre/post/on_raise."""
+    rty = parse_ty(result_ty)
+
+    def run(ex):
+        if pre:
+            pre(ex)
+        if is_async:
+            try:
+                ex.suspend('user:' + name)
+            except RaiseSig as sig:
+                if on_raise:
+                    on_raise(ex, sig.exc)
+                raise
+        i = ex.choice([None] * (1 + len(raises)), 'user:' + name)
+        if i == 0:
+            res = fresh(rty, 'ret_' + name)
+            ex.assume_type(res)
+            if post:
+                post(ex, res)
+            return res
+        exc = ex.fresh_exc(raises[i - 1], base='userexc')
+        if on_raise:
+            on_raise(ex, exc)
+        raise RaiseSig(exc, 'user:' + name)
+
+    def model(ex, n, awaited, recv=None):
+        if is_async and not awaited:
+            return V(PY, py=('coro', 'user:' + name, {'run': run}))
+        return run(ex)
+
+    model.run = run
+    return model
 
 
 def install(spec: Spec):
